@@ -1185,13 +1185,21 @@ impl ConfigState {
             )?,
         );
 
+        // store the names the same way add_certificate does (explicit names, or
+        // the ones found in the certificate), otherwise the state would not
+        // survive a generate_requests / replay round trip
+        let mut new_certificate = replace.new_certificate.clone();
+        new_certificate
+            .apply_overriding_names()
+            .map_err(|names_err| StateError::ReplaceCertificate(names_err.to_string()))?;
+
         self.certificates
             .get_mut(&replace_address)
             .map(|certs| certs.remove(&old_fingerprint));
 
         self.certificates
             .get_mut(&replace_address)
-            .map(|certs| certs.insert(new_fingerprint.clone(), replace.new_certificate.clone()));
+            .map(|certs| certs.insert(new_fingerprint.clone(), new_certificate));
 
         if !self
             .certificates
